@@ -45,6 +45,21 @@ fn chunks(seed: u64, n: u64) {
 
 fn ser<T: concordium_base::common::Serial>(x: &T) -> Vec<u8> { concordium_base::common::to_bytes(x) }
 
+/// A copy of `x` with one bit flipped that still deserialises and differs from `x` (None if 40 tries fail).
+fn flip_still_parses<T: concordium_base::common::Serial + concordium_base::common::Deserial>(x: &T, r: &mut Rng) -> Option<T> {
+    let b = ser(x);
+    for _ in 0..40 {
+        let mut b2 = b.clone();
+        let pos = r.below(b.len() as u64) as usize;
+        b2[pos] ^= 1 << r.below(8);
+        let mut cur = std::io::Cursor::new(&b2);
+        if let Ok(y) = concordium_base::common::from_bytes::<T, _>(&mut cur) {
+            if cur.position() as usize == b2.len() && ser(&y) != b { return Some(y); }
+        }
+    }
+    None
+}
+
 fn oracle(seed: u64, n: u64) {
     let mut r = Rng::new(seed);
     let mut csprng = StdRng::seed_from_u64(seed);
@@ -86,25 +101,67 @@ fn oracle(seed: u64, n: u64) {
                 let tr = et::decrypt_amount(&table, &sk2, &td.transfer_amount).micro_ccd();
                 let cons = amt <= bal && tr == amt && rem == bal - amt;
                 // perturbations: each must be rejected
-                let mut rejected = Vec::new();
+                use concordium_base::curve_arithmetic::Curve as _;
+                let bump = *context.elgamal_generator();
+                let vt = |rpk: &PublicKey<G1>, spk: &PublicKey<G1>, before: &EncryptedAmount<G1>, t: &EncryptedAmountTransferData<G1>| -> bool {
+                    guarded(|| et::verify_transfer_data(&context, rpk, spk, before, t)).unwrap_or(false) };
+                let mut rejected: Vec<(String, bool)> = Vec::new();
                 let mut t2 = td.clone(); t2.index = EncryptedAmountAggIndex::from(td.index.index + 1);
-                rejected.push(("index", !et::verify_transfer_data(&context, &pk2, &pk, &enc_bal, &t2)));
+                rejected.push(("index".into(), !vt(&pk2, &pk, &enc_bal, &t2)));
                 let mut t3 = td.clone(); t3.remaining_amount = td.transfer_amount.clone();
-                rejected.push(("remaining", !et::verify_transfer_data(&context, &pk2, &pk, &enc_bal, &t3)));
+                rejected.push(("remaining".into(), !vt(&pk2, &pk, &enc_bal, &t3)));
                 let mut t4 = td.clone(); t4.transfer_amount = td.remaining_amount.clone();
-                rejected.push(("transfer", !et::verify_transfer_data(&context, &pk2, &pk, &enc_bal, &t4)));
-                rejected.push(("receiver_pk", !et::verify_transfer_data(&context, &pk, &pk, &enc_bal, &td)));
-                rejected.push(("sender_pk", !et::verify_transfer_data(&context, &pk2, &pk2, &enc_bal, &td)));
+                rejected.push(("transfer".into(), !vt(&pk2, &pk, &enc_bal, &t4)));
+                rejected.push(("receiver_pk".into(), !vt(&pk, &pk, &enc_bal, &td)));
+                rejected.push(("sender_pk".into(), !vt(&pk2, &pk2, &enc_bal, &td)));
+                // every component of every key separately (generator only, key element only)
+                rejected.push(("receiver_pk.generator".into(), !vt(&PublicKey { generator: pk2.generator.plus_point(&bump), key: pk2.key }, &pk, &enc_bal, &td)));
+                rejected.push(("receiver_pk.key".into(), !vt(&PublicKey { generator: pk2.generator, key: pk2.key.plus_point(&bump) }, &pk, &enc_bal, &td)));
+                rejected.push(("sender_pk.generator".into(), !vt(&pk2, &PublicKey { generator: pk.generator.plus_point(&bump), key: pk.key }, &enc_bal, &td)));
+                rejected.push(("sender_pk.key".into(), !vt(&pk2, &PublicKey { generator: pk.generator, key: pk.key.plus_point(&bump) }, &enc_bal, &td)));
                 let other = et::encrypt_amount_with_fixed_randomness(&context, Amount::from_micro_ccd(bal.wrapping_add(1)));
-                rejected.push(("before_amount", !et::verify_transfer_data(&context, &pk2, &pk, &other, &td)));
+                rejected.push(("before_amount".into(), !vt(&pk2, &pk, &other, &td)));
+                // every component of every ciphertext separately
+                for c in 0..2usize { for half in 0..2usize {
+                    let tweak = |e: &EncryptedAmount<G1>| -> EncryptedAmount<G1> { let mut e = e.clone();
+                        if half == 0 { e.encryptions[c].0 = e.encryptions[c].0.plus_point(&bump) } else { e.encryptions[c].1 = e.encryptions[c].1.plus_point(&bump) }; e };
+                    let mut t = td.clone(); t.remaining_amount = tweak(&td.remaining_amount);
+                    rejected.push((format!("remaining[{}].{}", c, half), !vt(&pk2, &pk, &enc_bal, &t)));
+                    let mut t = td.clone(); t.transfer_amount = tweak(&td.transfer_amount);
+                    rejected.push((format!("transfer[{}].{}", c, half), !vt(&pk2, &pk, &enc_bal, &t)));
+                    rejected.push((format!("before[{}].{}", c, half), !vt(&pk2, &pk, &tweak(&enc_bal), &td)));
+                }}
+                // every proof component: (a) taken from ANOTHER valid transfer (same keys and balance), (b) bit-flipped copy that still deserialises
+                let amt2 = if amt == bal { bal / 2 } else { bal };
+                if let Ok(Some(od)) = guarded(|| et::make_transfer_data(&context, &pk2, &sk, &input, Amount::from_micro_ccd(amt2), &mut csprng)) {
+                    if vt(&pk2, &pk, &enc_bal, &od) {
+                        let mut t = td.clone(); t.proof.accounting = od.proof.accounting.clone();
+                        rejected.push(("proof.accounting<-other".into(), !vt(&pk2, &pk, &enc_bal, &t)));
+                        let mut t = td.clone(); t.proof.transfer_amount_correct_encryption = od.proof.transfer_amount_correct_encryption.clone();
+                        rejected.push(("proof.transfer_range<-other".into(), !vt(&pk2, &pk, &enc_bal, &t)));
+                        let mut t = td.clone(); t.proof.remaining_amount_correct_encryption = od.proof.remaining_amount_correct_encryption.clone();
+                        rejected.push(("proof.remaining_range<-other".into(), !vt(&pk2, &pk, &enc_bal, &t)));
+                    } else { rejected.push(("second-transfer-verifies".into(), false)); }
+                }
+                {
+                    let mut t = td.clone();
+                    if let Some(p) = flip_still_parses(&td.proof.accounting, &mut r) { t.proof.accounting = p;
+                        rejected.push(("proof.accounting^bit".into(), !vt(&pk2, &pk, &enc_bal, &t))); }
+                    let mut t = td.clone();
+                    if let Some(p) = flip_still_parses(&td.proof.transfer_amount_correct_encryption, &mut r) { t.proof.transfer_amount_correct_encryption = p;
+                        rejected.push(("proof.transfer_range^bit".into(), !vt(&pk2, &pk, &enc_bal, &t))); }
+                    let mut t = td.clone();
+                    if let Some(p) = flip_still_parses(&td.proof.remaining_amount_correct_encryption, &mut r) { t.proof.remaining_amount_correct_encryption = p;
+                        rejected.push(("proof.remaining_range^bit".into(), !vt(&pk2, &pk, &enc_bal, &t))); }
+                }
                 // proof bytes: flip one byte, must fail to parse or be rejected
                 let pb = ser(&td.proof);
                 let pos = r.below(pb.len() as u64) as usize;
                 let mut pb2 = pb.clone(); pb2[pos] ^= 1 << r.below(8);
                 let rej = match concordium_base::common::from_bytes::<EncryptedAmountTransferProof<G1>, _>(&mut std::io::Cursor::new(&pb2)) {
-                    Ok(p) => { let mut t5 = td.clone(); t5.proof = p; !et::verify_transfer_data(&context, &pk2, &pk, &enc_bal, &t5) }
+                    Ok(p) => { let mut t5 = td.clone(); t5.proof = p; !vt(&pk2, &pk, &enc_bal, &t5) }
                     Err(_) => true };
-                rejected.push(("proof_byte", rej));
+                rejected.push(("proof_byte".into(), rej));
                 let all_rej = rejected.iter().all(|x| x.1);
                 println!("{}", json!({"k":"transfer","bal":bal.to_string(),"amt":amt.to_string(),"made":true,"verifies":ver,
                     "rem":rem.to_string(),"tr":tr.to_string(),"rejected":rejected.iter().map(|(a,b)| json!([a,b])).collect::<Vec<_>>(),
@@ -120,13 +177,43 @@ fn oracle(seed: u64, n: u64) {
                 let ver = et::verify_sec_to_pub_transfer_data(&context, &pk, &enc_bal, &sd);
                 let rem = et::decrypt_amount(&table, &sk, &sd.remaining_amount).micro_ccd();
                 let cons = amt <= bal && sd.transfer_amount.micro_ccd() == amt && rem == bal - amt;
+                use concordium_base::curve_arithmetic::Curve as _;
+                let bump = *context.elgamal_generator();
+                let vs = |k: &PublicKey<G1>, before: &EncryptedAmount<G1>, t: &SecToPubAmountTransferData<G1>| -> bool {
+                    guarded(|| et::verify_sec_to_pub_transfer_data(&context, k, before, t)).unwrap_or(false) };
+                let mut rejected: Vec<(String, bool)> = Vec::new();
                 let mut s2 = sd.clone(); s2.transfer_amount = Amount::from_micro_ccd(amt.wrapping_add(1));
-                let r1 = !et::verify_sec_to_pub_transfer_data(&context, &pk, &enc_bal, &s2);
+                rejected.push(("amount".into(), !vs(&pk, &enc_bal, &s2)));
                 let mut s3 = sd.clone(); s3.index = EncryptedAmountAggIndex::from(sd.index.index + 1);
-                let r2 = !et::verify_sec_to_pub_transfer_data(&context, &pk, &enc_bal, &s3);
-                let r3 = !et::verify_sec_to_pub_transfer_data(&context, &pk2, &enc_bal, &sd);
+                rejected.push(("index".into(), !vs(&pk, &enc_bal, &s3)));
+                rejected.push(("pk".into(), !vs(&pk2, &enc_bal, &sd)));
+                rejected.push(("pk.generator".into(), !vs(&PublicKey { generator: pk.generator.plus_point(&bump), key: pk.key }, &enc_bal, &sd)));
+                rejected.push(("pk.key".into(), !vs(&PublicKey { generator: pk.generator, key: pk.key.plus_point(&bump) }, &enc_bal, &sd)));
+                for c in 0..2usize { for half in 0..2usize {
+                    let tweak = |e: &EncryptedAmount<G1>| -> EncryptedAmount<G1> { let mut e = e.clone();
+                        if half == 0 { e.encryptions[c].0 = e.encryptions[c].0.plus_point(&bump) } else { e.encryptions[c].1 = e.encryptions[c].1.plus_point(&bump) }; e };
+                    let mut t = sd.clone(); t.remaining_amount = tweak(&sd.remaining_amount);
+                    rejected.push((format!("remaining[{}].{}", c, half), !vs(&pk, &enc_bal, &t)));
+                    rejected.push((format!("before[{}].{}", c, half), !vs(&pk, &tweak(&enc_bal), &sd)));
+                }}
+                let amt2 = if amt == bal { bal / 2 } else { bal };
+                if let Ok(Some(od)) = guarded(|| et::make_sec_to_pub_transfer_data(&context, &sk, &input, Amount::from_micro_ccd(amt2), &mut csprng)) {
+                    if vs(&pk, &enc_bal, &od) {
+                        let mut t = sd.clone(); t.proof.accounting = od.proof.accounting.clone();
+                        rejected.push(("proof.accounting<-other".into(), !vs(&pk, &enc_bal, &t)));
+                        let mut t = sd.clone(); t.proof.remaining_amount_correct_encryption = od.proof.remaining_amount_correct_encryption.clone();
+                        rejected.push(("proof.remaining_range<-other".into(), !vs(&pk, &enc_bal, &t)));
+                    } else { rejected.push(("second-transfer-verifies".into(), false)); }
+                }
+                let mut t = sd.clone();
+                if let Some(p) = flip_still_parses(&sd.proof.accounting, &mut r) { t.proof.accounting = p;
+                    rejected.push(("proof.accounting^bit".into(), !vs(&pk, &enc_bal, &t))); }
+                let mut t = sd.clone();
+                if let Some(p) = flip_still_parses(&sd.proof.remaining_amount_correct_encryption, &mut r) { t.proof.remaining_amount_correct_encryption = p;
+                    rejected.push(("proof.remaining_range^bit".into(), !vs(&pk, &enc_bal, &t))); }
+                let all_rej = rejected.iter().all(|x| x.1);
                 println!("{}", json!({"k":"sec2pub","bal":bal.to_string(),"amt":amt.to_string(),"made":true,"verifies":ver,
-                    "rem":rem.to_string(),"rejected":[["amount",r1],["index",r2],["pk",r3]],"ok": ver && cons && r1 && r2 && r3}));
+                    "rem":rem.to_string(),"rejected":rejected.iter().map(|(a,b)| json!([a,b])).collect::<Vec<_>>(),"ok": ver && cons && all_rej}));
             }
         }
     }
@@ -360,6 +447,7 @@ fn bsgs(seed: u64, n: u64) {
         }
         for x in xs {
             let v = h.mul_by_scalar(&G1::scalar_from_u64(x));
+            { use std::io::Write; println!("{}", json!({"k":"bsgs_try","m":m,"x":x.to_string()})); std::io::stdout().flush().ok(); }
             let res = guarded(|| table.discrete_log(&v));
             let full = if m <= 16 { guarded(|| BabyStepGiantStep::discrete_log_full(&h, m, &v)).ok() } else { None };
             let rj = match &res { Ok(d) => json!(d.to_string()), Err(_) => json!("PANIC") };
@@ -394,11 +482,10 @@ fn aggcarry(seed: u64, n: u64, log_m: u64) {
         let (ea, _) = et::encrypt_amount(&context, &pk, Amount::from_micro_ccd(a), &mut csprng);
         let (eb, _) = et::encrypt_amount(&context, &pk, Amount::from_micro_ccd(b), &mut csprng);
         let agg = et::aggregate(&ea, &eb);
-        let lo = sk.decrypt_exponent(&agg.encryptions[0], &table);
-        let hi = sk.decrypt_exponent(&agg.encryptions[1], &table);
+        // (the chunk-wise decryptions of aggregates are compared in `oracle`; here the whole decrypt_amount, once)
         let dec = guarded(|| et::decrypt_amount(&table, &sk, &agg).micro_ccd());
         let dj = match &dec { Ok(d) => json!(d.to_string()), Err(_) => json!("PANIC") };
-        println!("{}", json!({"k":"aggcarry","a":a.to_string(),"b":b.to_string(),"lo":lo.to_string(),"hi":hi.to_string(),"dec":dj}));
+        println!("{}", json!({"k":"aggcarry","a":a.to_string(),"b":b.to_string(),"dec":dj}));
     }
 }
 
@@ -423,6 +510,95 @@ fn wiring(seed: u64) {
         println!("{}", json!({"k":"wiring","na":na,"ns":ns,
             "head":[tok(&st.dlog.public), tok(&st.dlog.coeff), tok(&st.elg_dec.public), tok(&st.elg_dec.coeff[0]), tok(&st.elg_dec.coeff[1])],
             "e1": st.encexp1.iter().map(ce).collect::<Vec<_>>(), "e2": st.encexp2.iter().map(ce).collect::<Vec<_>>()}));
+    }
+}
+
+/// Serial/Deserial round trip of decryption tables, including sizes above 2^16 (the preallocation cap of
+/// `deserial`): restored table == original, serialized length, and discrete_log on the RESTORED table for a
+/// spread of residues under a watchdog (a truncated table makes discrete_log loop forever).
+fn bsgsser(seed: u64, big: u64) {
+    use concordium_base::curve_arithmetic::Curve;
+    use std::sync::{mpsc, Arc};
+    let mut r = Rng::new(seed);
+    let context = GlobalContext::<G1>::generate(String::from("verif-c12"));
+    let h = *context.encryption_in_exponent_generator();
+    let mut sizes: Vec<u64> = vec![1, 2, 16, 1000, 65536, 65537];
+    if big >= 1 { sizes.push(1 << 17); }
+    if big >= 2 { sizes.push((1 << 18) + 3); }
+    for m in sizes {
+        let table = BabyStepGiantStep::new(&h, m);
+        let bytes = ser(&table);
+        let restored = guarded(|| concordium_base::common::from_bytes::<BabyStepGiantStep<G1>, _>(&mut std::io::Cursor::new(&bytes)));
+        let restored = match restored { Ok(Ok(t)) => t, Ok(Err(e)) => { println!("{}", json!({"k":"bsgsser","m":m,"len":bytes.len(),"deserial":format!("ERR {}", e)})); continue }
+            Err(e) => { println!("{}", json!({"k":"bsgsser","m":m,"len":bytes.len(),"deserial":format!("PANIC {}", e)})); continue } };
+        let equal = restored == table;
+        let again = ser(&restored).len();
+        println!("{}", json!({"k":"bsgsser","m":m,"len":bytes.len(),"deserial":"ok","equal":equal,"len_again":again}));
+        // one byte short must be refused
+        let short = concordium_base::common::from_bytes::<BabyStepGiantStep<G1>, _>(&mut std::io::Cursor::new(&bytes[..bytes.len() - 1])).is_ok();
+        println!("{}", json!({"k":"bsgsser_short","m":m,"accepted":short}));
+        let restored = Arc::new(restored);
+        let mut xs: Vec<u64> = vec![0, m / 4, m / 2, m / 2 + 1, (3 * m) / 4, m - 1, m, m + (3 * m) / 4, 2 * m + m - 1, 3 * m];
+        for _ in 0..6 { xs.push(r.below(4 * m)); }
+        for x in xs {
+            let v = h.mul_by_scalar(&G1::scalar_from_u64(x));
+            let (tx, rx) = mpsc::channel();
+            let t = restored.clone();
+            std::thread::spawn(move || { let d = t.discrete_log(&v); let _ = tx.send(d); });
+            match rx.recv_timeout(std::time::Duration::from_secs(15)) {
+                Ok(d) => println!("{}", json!({"k":"bsgsser_dlog","m":m,"x":x.to_string(),"r":d.to_string()})),
+                Err(_) => { println!("{}", json!({"k":"bsgsser_dlog","m":m,"x":x.to_string(),"r":"TIMEOUT"})); break }
+            }
+        }
+    }
+    use std::io::Write; std::io::stdout().flush().ok();
+    std::process::exit(0);
+}
+
+/// Real transfers with everything the verifier hashes for the FIRST challenge (the sigma proof's): the check
+/// rebuilds the frame with the Coq model of the transcript initialisation + EncTrans `public` + commit message
+/// and compares sha3-256(frame) with the real challenge.
+fn frames(seed: u64) {
+    use concordium_base::{curve_arithmetic::Curve, elgamal::Cipher, encrypted_transfers::proofs::gen_enc_trans_proof_info,
+        sigma_protocols::common::SigmaProtocol};
+    let mut r = Rng::new(seed);
+    let mut csprng = StdRng::seed_from_u64(seed ^ 0xf4a);
+    let context = GlobalContext::<G1>::generate_size(String::from("verif-c12"), 64);
+    let h = *context.encryption_in_exponent_generator();
+    let px = |p: &G1| hlib::hex(&ser(p));
+    let cx = |c: &Cipher<G1>| json!([px(&c.0), px(&c.1)]);
+    for i in 0..3u64 {
+        let sk = SecretKey::generate(context.elgamal_generator(), &mut csprng);
+        let pk = PublicKey::from(&sk);
+        let sk2 = SecretKey::generate(context.elgamal_generator(), &mut csprng);
+        let pk2 = PublicKey::from(&sk2);
+        let bal = if i == 0 { (1u64 << 33) + 5 } else { r.u64_edge() | 1 };
+        let amt = if i == 0 { (1u64 << 32) + 7 } else { r.below(bal) };
+        let (enc_bal, _) = et::encrypt_amount(&context, &pk, Amount::from_micro_ccd(bal), &mut csprng);
+        let input = AggregatedDecryptedAmount { agg_encrypted_amount: enc_bal.clone(), agg_amount: Amount::from_micro_ccd(bal), agg_index: EncryptedAmountAggIndex::from(3) };
+        let s_joined = enc_bal.join();
+        if let Some(td) = et::make_transfer_data(&context, &pk2, &sk, &input, Amount::from_micro_ccd(amt), &mut csprng) {
+            let a: &[Cipher<G1>; 2] = td.transfer_amount.as_ref();
+            let sp: &[Cipher<G1>; 2] = td.remaining_amount.as_ref();
+            let st = gen_enc_trans_proof_info(&pk, &pk2, &s_joined, a, sp, &h);
+            let c = st.get_challenge(&td.proof.accounting.challenge);
+            let cm = st.extract_commit_message(&c, &td.proof.accounting.response).map(|m| hlib::hex(&ser(&m)));
+            println!("{}", json!({"k":"frame","kind":"transfer","gc":hlib::hex(&ser(&context)),"g":px(&pk.generator),"h":px(&h),
+                "pk_s":px(&pk.key),"pk_r":px(&pk2.key),"S":cx(&s_joined),"A":[cx(&a[0]),cx(&a[1])],"Sp":[cx(&sp[0]),cx(&sp[1])],
+                "challenge":hlib::hex(td.proof.accounting.challenge.as_ref()),"cm":cm,
+                "verifies":et::verify_transfer_data(&context, &pk2, &pk, &enc_bal, &td)}));
+        }
+        if let Some(sd) = et::make_sec_to_pub_transfer_data(&context, &sk, &input, Amount::from_micro_ccd(amt), &mut csprng) {
+            let sp: &[Cipher<G1>; 2] = sd.remaining_amount.as_ref();
+            let a = [Cipher(G1::zero_point(), h.mul_by_scalar(&G1::scalar_from_u64(amt)))];
+            let st = gen_enc_trans_proof_info(&pk, &pk, &s_joined, &a, sp, &h);
+            let c = st.get_challenge(&sd.proof.accounting.challenge);
+            let cm = st.extract_commit_message(&c, &sd.proof.accounting.response).map(|m| hlib::hex(&ser(&m)));
+            println!("{}", json!({"k":"frame","kind":"sec2pub","gc":hlib::hex(&ser(&context)),"g":px(&pk.generator),"h":px(&h),
+                "pk_s":px(&pk.key),"pk_r":px(&pk.key),"S":cx(&s_joined),"A":[cx(&a[0])],"Sp":[cx(&sp[0]),cx(&sp[1])],
+                "challenge":hlib::hex(sd.proof.accounting.challenge.as_ref()),"cm":cm,
+                "verifies":et::verify_sec_to_pub_transfer_data(&context, &pk, &enc_bal, &sd)}));
+        }
     }
 }
 
@@ -481,6 +657,6 @@ fn main() {
     let seed: u64 = a[2].parse().unwrap();
     let n: u64 = a[3].parse().unwrap();
     match a[1].as_str() { "chunks" => chunks(seed, n), "oracle" => oracle(seed, n), "encgen" => encgen(seed, n), "attack" => attacks(seed),
-        "vchunks" => vchunks(seed, n), "bsgs" => bsgs(seed, n), "wiring" => wiring(seed),
+        "vchunks" => vchunks(seed, n), "bsgs" => bsgs(seed, n), "wiring" => wiring(seed), "bsgsser" => bsgsser(seed, n), "frames" => frames(seed),
         "aggcarry" => aggcarry(seed, n, a.get(4).and_then(|x| x.parse().ok()).unwrap_or(18)), _ => panic!("mode") }
 }
